@@ -66,6 +66,7 @@ func addProgram(rep *Report, ast types.MalType, nontrivial bool, tags ...string)
 	}
 	if strings.HasPrefix(line, "HANG") {
 		rep.Violate(idx, "EVAL did not return within 20s", h.Show(ast))
+		emergencyFlush(rep)
 	}
 	return idx, line, o
 }
